@@ -16,7 +16,10 @@ from harness.impl import call
 THEOREMS = ['Dlis.C12.write_sound', 'Dlis.C12.set_record_decodes', 'Dlis.C12.noformat_record_decodes', 'Dlis.C12.rejects_long_ident', 'Dlis.C12.rejects_non_ascii',
             'Dlis.C12.rejects_out_of_range', 'Dlis.C12.rejects_missing_dataset', 'Dlis.C12.rejects_unequal_rows',
             'Dlis.C12.empty_list_faithful', 'Dlis.C02.segmentation_lossless', 'Dlis.C04.parseEflr_setBody',
-            'Dlis.C03.frame_data_roundtrip', 'Dlis.C16.noformat_roundtrip']
+            'Dlis.C03.frame_data_roundtrip', 'Dlis.C16.noformat_roundtrip', 'Dlis.C12.text_rejects_non_str',
+            'Dlis.C12.numeric_rejects_non_number', 'Dlis.C12.numeric_int_rejects_fraction',
+            'Dlis.C12.status_rejects_other_numbers', 'Dlis.C12.reference_rejects_other_type',
+            'Dlis.C12.rejected_assignment_keeps_state', 'Dlis.Obligations.convs_eq']
 
 
 def first(spec, kind):
@@ -223,7 +226,7 @@ def run(tier):
     model = Model()
     R = rng('C12', 'malformed')
     tmp = tempfile.mkdtemp(prefix='verif_c12_')
-    reps = 8 if tier == 'quick' else 40
+    reps = 8 if tier == 'quick' else 150
     try:
         runs = []
         for name, must_raise, mut in defects():
@@ -277,6 +280,11 @@ def run(tier):
                 for f in chk.failures[before:]:
                     f['key'] = f'unfaithful:{name}'
         wf.run_frames_oracle([x for x in (None,) if x], model, bres, chk)
+        # fail-closed at the setters: every attribute of every object type given values of every Python kind (most of
+        # them unacceptable for the attribute); what is accepted must come out of the strict reader as assigned
+        from harness import convert
+        from harness.filegen import ATTRS
+        convert.run_stream(chk, model, bres, rng('C12', 'setters'), 8 if tier == 'quick' else 60, ATTRS, stream='setters')
     finally:
         shutil.rmtree(tmp, ignore_errors=True)
     return finish(chk, bres, THEOREMS,
